@@ -185,6 +185,9 @@ def check(case, ctx):
     if case.get("y1d"):
         fit_Y = fit_Y[:, 0]
         ctx.cls("y1d")
+        if "W" in fit_kw and case["k"] % 2:
+            fit_kw = {"W": W[:, 0]}          # dual weights of a 1-D target are 1-D (e.g. KernelRidge.dual_coef_)
+            ctx.cls("W1d")
     A = build(kp, regressor, center)
     # the named-kernel estimator receives the data in the caller's dtype (bool / uint8 / int8 for fingerprints and counts)
     Xl, Xvl = X, Xv
